@@ -113,7 +113,7 @@ func (ca *CA) Issue(o CertOpts) (*Cert, error) {
 
 // DaemonOpts configures one real dirk daemon.
 type DaemonOpts struct {
-	Race bool // run the daemon binary built with -race (see RaceDirkBin)
+	Race        bool // run the daemon binary built with -race (see RaceDirkBin)
 	Dir         string
 	ID          uint64
 	IP          string // 127.0.0.x
